@@ -44,9 +44,9 @@ def build():
          ensures=[E('lookup', 'r == (if self.mapping@.dom().contains(id) { Some(self.mapping@[id]) } else { None })')])
     # ---- maintain: the table is REBUILT from the marked live entities (stale ids of deleted / re-marked entities disappear)
     u.fn(MK, [AH, 'fn maintain'], props='C15 C20', impl_header=AI, key='SimpleMarkerAllocator::maintain',
-         rules=[('N10', r'\(entities, storage\)\s*\.join\(\)\s*\.map\(\|\(e, m\)\| \(m\.id\(\), e\)\)\s*\.collect\(\)', 'collect_marker_join::<SimpleMarker<T>, u64>(entities, storage)')],
+         rules=[('N10', r'\(entities, storage\)\s*\.join\(\)\s*\.map\(\|\((\w+), (\w+)\)\| \(\2\.id\(\), \1\)\)\s*\.collect\(\)', 'collect_marker_join::<SimpleMarker<T>, u64>(entities, storage)')],
          ensures=[E('rebuilt', 'final(self).mapping@ == marked::<SimpleMarker<T>, u64>(entities, storage)'), E('counter', 'final(self).index == old(self).index')])
     u.fn(UU, [UH, 'fn maintain'], props='C15 C20', impl_header=UI, key='UuidMarkerAllocator::maintain',
-         rules=[('N10', r'\(entities, storage\)\s*\.join\(\)\s*\.map\(\|\(e, m\)\| \(m\.uuid\(\), e\)\)\s*\.collect\(\)', 'collect_marker_join::<UuidMarker, Uuid>(entities, storage)')],
+         rules=[('N10', r'\(entities, storage\)\s*\.join\(\)\s*\.map\(\|\((\w+), (\w+)\)\| \(\2\.uuid\(\), \1\)\)\s*\.collect\(\)', 'collect_marker_join::<UuidMarker, Uuid>(entities, storage)')],
          ensures=[E('rebuilt', 'final(self).mapping@ == marked::<UuidMarker, Uuid>(entities, storage)')])
     return u
